@@ -14,6 +14,9 @@ K3  real instructions through the real MainProgram.execute in process: an otherw
     stub that starts nothing; counting sandbox resolver.  Exit 65 with SYNTAX_ERROR /
     VALIDATION_ERROR / FILE_ACCESS_ERROR, 0 process starts, 0 sandboxes; the same for
     `exactly symbol FILE`.                                                        [selector]
+K4  the cases of a suite: an instruction written in the suite file (parsed once, shared by all
+    cases) whose validity depends on a symbol each case defines: every invalid case is
+    VALIDATION_ERROR without a sandbox, every valid case PASSes, whatever the order.  [selector]
 """
 import os
 from typing import List
@@ -80,7 +83,7 @@ def k1_no_effects(kind: int, mode: int) -> bool:
     run = xh.execute(plan, xh.stub_test_case(plan, n, xh.STATUSES[mode]))
     if run.exception is not None or run.result is None:
         return False
-    executed = [c for c in run.trace if c[1] in ('main', 'post', 'prepare', 'execute') and c[0] != 'conf']
+    executed = [c for c in run.trace if c[1] in ('main', 'post', 'exe-input', 'prepare', 'execute') and c[0] != 'conf']
     if case.get('oracle_bug'):
         executed = [c for c in run.trace if c[1] != 'parse']
     want = {1: ('VALIDATION_ERROR', 'SYNTAX_ERROR'), 2: ('HARD_ERROR',), 3: ('HARD_ERROR',), 4: ('INTERNAL_ERROR',)}[kind]
@@ -187,7 +190,9 @@ BASE = {
     'cleanup': ['$ touch cleanup-marker', "file f2.txt = -stdout-from $ echo c"],
 }
 PRELUDE = ['def line-matcher LM = contents matches x', 'def path HP = -rel-home x', 'def string S = s',
-           'def path AP = /vsym-no-such-dir/sub']
+           'def path AP = /vsym-no-such-dir/sub',
+           # strings built from several symbols, a path symbol first / second / at depth two
+           'def string IND1 = "@[HP]@-@[S]@"', 'def string IND2 = "@[S]@-@[HP]@"', 'def string IND3 = "@[S]@@[S]@@[IND2]@"']
 PHASES = ('setup', 'before-assert', 'assert', 'cleanup')
 
 # (name, defective line, expected identifiers, extra)
@@ -223,6 +228,12 @@ DEFECTS = (
     ('missing-absolute-file-via-path-symbol', 'copy @[AP]@/f.txt', ('VALIDATION_ERROR',), None),
     ('missing-absolute-file-contents-of', 'file c.txt = -contents-of /vsym-no-such-dir/f.txt', ('VALIDATION_ERROR',), None),
     ('missing-absolute-program', 'run /vsym-no-such-dir/program arg', ('VALIDATION_ERROR',), None),
+    # every symbol a path component / an integer is built from must be a string - transitively, whichever reference
+    ('indirect-wrong-type-1st-reference-path-component', 'dir -rel-tmp d-@[IND1]@', ('VALIDATION_ERROR',), None),
+    ('indirect-wrong-type-2nd-reference-path-component', 'dir -rel-tmp d-@[IND2]@', ('VALIDATION_ERROR',), None),
+    ('indirect-wrong-type-depth-2-last-reference-path-component', 'dir -rel-tmp d-@[IND3]@', ('VALIDATION_ERROR',), None),
+    ('indirect-wrong-type-2nd-reference-integer', 'timeout = @[IND2]@', ('VALIDATION_ERROR',), None),
+    ('indirect-wrong-type-2nd-reference-program-name', '% @[IND2]@', ('VALIDATION_ERROR',), None),
     ('bad-integer-expression', 'timeout = 1+', ('VALIDATION_ERROR',), None),
     ('bad-integer-name', 'timeout = abc', ('VALIDATION_ERROR',), None),
     ('bad-regex', "file r.txt = -contents-of -rel-home existing.txt -transformed-by replace '(' y", ('VALIDATION_ERROR',), None),
@@ -371,6 +382,128 @@ def k3_invalid_case(d: int, ph: int, pos: int, sym: bool) -> bool:
     return ob.post(no_effects and r['rc'] == 65 and r['ident'] in defect[2])
 
 
+# ----------------------------------------------------------------------------- K4: the cases of a suite
+
+# An instruction written in the SUITE file belongs to every case, is parsed once, and is validated for
+# each case with that case's symbols: (name, phase, instruction in the suite file, definition in a valid case,
+# definition in an invalid case)
+SUITE_DEFECTS = (
+    ('copy-home-file-via-path-symbol', 'before-assert', 'copy @[SYM]@',
+     'def path SYM = -rel-home existing.txt', 'def path SYM = -rel-home missing.txt'),
+    ('contents-of-home-file-via-path-symbol', 'cleanup', 'file c.txt = -contents-of @[SYM]@',
+     'def path SYM = -rel-home existing.txt', 'def path SYM = -rel-home missing.txt'),
+    ('existing-file-program-argument', 'assert', '% echo -existing-file @[SYM]@',
+     'def path SYM = -rel-home existing.txt', 'def path SYM = -rel-home missing.txt'),
+    ('timeout-via-string-symbol', 'before-assert', 'timeout = @[SYM]@',
+     'def string SYM = 5', 'def string SYM = abc'),
+    ('exit-code-integer-via-string-symbol', 'assert', 'exit-code == @[SYM]@',
+     'def string SYM = 0', 'def string SYM = 1+'),
+    ('regex-via-string-symbol', 'assert', "stdout -transformed-by replace @[SYM]@ y is-empty",
+     'def string SYM = x', "def string SYM = '('"),
+)
+# which of the cases, in listing order, are invalid
+SUITE_LAYOUTS = ((False, True), (True, False), (False, True, False), (False, False, True), (True, True))
+
+
+def run_suite(files: dict, suite_name: str):
+    """Runs the REAL main program (`exactly suite`) in process."""
+    import io
+    from vsym import scratch
+    from harness.C02 import Sink
+    from exactly_lib.cli import main_program
+    from exactly_lib.cli.test_suite_def import TestSuiteDefinition
+    from exactly_lib.cli_default import default_main_program_setup as d
+    from exactly_lib.util.file_utils.std import StdOutputFiles
+    from exactly_lib.util.process_execution import process_executor
+    from exactly_lib.processing import preprocessor
+    process_executor.subprocess = _SubprocessStub
+    preprocessor.subprocess = _SubprocessStub
+    work = scratch.new_dir('c03s')
+    case_dir = os.path.join(work, 'suite')
+    os.mkdir(case_dir)
+    for name, text in files.items():
+        with open(os.path.join(case_dir, name), 'w') as f:
+            f.write(text)
+    roots = []
+
+    def resolver() -> str:
+        p = os.path.join(work, 'sandboxes-%d' % (len(roots) + 1))
+        os.mkdir(p)
+        roots.append(p)
+        return p
+
+    class CountingSuiteDefinition(TestSuiteDefinition):
+        @property
+        def sandbox_root_dir_sdv(self):
+            return resolver
+
+    std = d.test_suite.test_suite_definition()
+    mp = main_program.MainProgram(
+        d.test_case_handling_setup.setup(), resolver,
+        d.TestCaseDefinitionForMainProgram(
+            d.TestCaseParsingSetup(d.instruction_name_and_argument_splitter.splitter,
+                                   d.default_instructions_setup.INSTRUCTIONS_SETUP, d.ActPhaseParser()),
+            d.builtin_symbols.ALL),
+        CountingSuiteDefinition(std.configuration_section_instructions, std.configuration_section_parser),
+        io.DEFAULT_BUFFER_SIZE)
+    out, err = Sink(), Sink()
+    _SubprocessStub.calls = []
+    cwd = os.getcwd()
+    exc = None
+    try:
+        rc = mp.execute(['suite', os.path.join(case_dir, suite_name)], StdOutputFiles(out, err))
+    except Exception as e:  # noqa
+        rc, exc = None, e
+    os.chdir(cwd)
+    scratch.remove(work)
+    statuses = {}
+    for line in (out.value() + err.value()).split('\n'):
+        parts = line.split()
+        if len(parts) >= 3 and parts[0] == 'case':
+            statuses[os.path.basename(parts[1].rstrip(':'))] = parts[-1]
+    return dict(rc=rc, exc=exc, statuses=statuses, sandboxes=len(roots), process_starts=len(_SubprocessStub.calls),
+                stdout=out.value(), stderr=err.value())
+
+
+def suite_files(defect, layout) -> dict:
+    name, phase, line, valid_def, invalid_def = defect
+    files = {'existing.txt': 'e\n'}
+    case_names = ['c%d.case' % (i + 1) for i in range(len(layout))]
+    files['the.suite'] = '[cases]\n' + '\n'.join(case_names) + '\n\n[%s]\n%s\n' % (phase, line)
+    for case_name, invalid in zip(case_names, layout):
+        files[case_name] = '[setup]\n%s\n$ touch setup-marker\n[act]\n$ echo act\n[assert]\nexit-code == 0\n' % (
+            invalid_def if invalid else valid_def)
+    return files
+
+
+def _pre_k4(sd: int, lay: int) -> bool:
+    return 0 <= sd < len(SUITE_DEFECTS) and 0 <= lay < len(SUITE_LAYOUTS)
+
+
+def k4_suite_cases(sd: int, lay: int) -> bool:
+    """
+    pre: _pre_k4(sd, lay)
+    post: _
+    """
+    defect = ob.pick(SUITE_DEFECTS, sd)
+    layout = ob.pick(SUITE_LAYOUTS, lay)
+    if ob.case().get('oracle_bug'):
+        layout = tuple(False for _ in layout)  # seeded oracle error: expects VALIDATION_ERROR of a valid suite
+        expected_invalid = SUITE_LAYOUTS[lay]
+    else:
+        expected_invalid = layout
+    r = run_suite(suite_files(defect, layout), 'the.suite')
+    if r['exc'] is not None:
+        return ob.post(False)
+    ok = True
+    for i, invalid in enumerate(expected_invalid):
+        status = r['statuses'].get('c%d.case' % (i + 1))
+        ok = ok and (status == 'VALIDATION_ERROR' if invalid else status == 'PASS')
+    n_valid = len([x for x in expected_invalid if not x])
+    # an invalid case creates no sandbox (and, the sandbox being where processes run, starts nothing)
+    return ob.post(ok and r['sandboxes'] == n_valid and r['rc'] == (4 if n_valid < len(expected_invalid) else 0))
+
+
 # -----------------------------------------------------------------------------
 
 def obligations(tier: str) -> List[Ob]:
@@ -414,6 +547,18 @@ def obligations(tier: str) -> List[Ob]:
     obs.append(Ob(name='K3:seeded-oracle-error', fn='k3_invalid_case', case=dict(act=True, range=(0, 1), oracle_bug=True),
                   kernel='K3', selector=True, bound='seeded: a valid case is claimed to be rejected', timeout=600,
                   expect=ob.REFUTE))
+    obs.append(Ob(name='K4:suite-cases', fn='k4_suite_cases', case={}, kernel='K4', selector=True,
+                  bound='suites of 2-3 cases sharing ONE instruction written in the suite file (%s) whose validity depends on a '
+                        'symbol each case defines itself; which cases are invalid: %s' % (
+                            [d[0] for d in SUITE_DEFECTS], [list(x) for x in SUITE_LAYOUTS]),
+                  timeout=1800, real=REAL_K3 + ('exactly_lib.test_suite.processing.Processor.process_reporter',
+                                                'exactly_lib.test_suite.file_reading.suite_file_reading',
+                                                'exactly_lib.processing.processors._Executor.apply'),
+                  stubs=('subprocess module at process_executor / preprocessor: recording stub that starts nothing',
+                         'counting sandbox resolver (TestSuiteDefinition.sandbox_root_dir_sdv)', 'in-memory stdout/stderr'),
+                  entry='MainProgram.execute(["suite", FILE])'))
+    obs.append(Ob(name='K4:seeded-oracle-error', fn='k4_suite_cases', case=dict(oracle_bug=True), kernel='K4',
+                  selector=True, bound='seeded: valid cases claimed to be rejected', timeout=600, expect=ob.REFUTE))
     return obs
 
 
